@@ -174,7 +174,13 @@ func c04ScriptedDownload(e *Env) {
 			hi = len(cur)
 		}
 		served++
-		opts := []WOpt{{Num: OptETag, Val: etag}, UintOpt(OptBlock2, BlockOpt(num, hi < len(cur), sz)), UintOpt(OptSize2, uint32(len(cur)))}
+		// the two representations differ in more than their bytes: each block carries the Content-Format of the
+		// representation it belongs to (42 octet-stream for v1, 50 json for v2)
+		cfv := byte(42)
+		if &cur[0] == &v2[0] {
+			cfv = 50
+		}
+		opts := []WOpt{{Num: OptETag, Val: etag}, {Num: OptContentFormat, Val: []byte{cfv}}, UintOpt(OptBlock2, BlockOpt(num, hi < len(cur), sz)), UintOpt(OptSize2, uint32(len(cur)))}
 		r := &WMsg{Type: TNON, Code: 0x45, MID: w.NextPeerMID(), Token: m.Token, Opts: opts, Payload: cur[lo:hi]}
 		if IsDatagram(tr) && m.Type == TCON {
 			r.Type, r.MID = TACK, m.MID
@@ -302,6 +308,17 @@ func c04ScriptedDownload(e *Env) {
 		return
 	}
 	e.Probe("transfer.completed")
+	for vi, v := range [][]byte{v1, v2} {
+		if bytes.Equal(resp.Payload, v) {
+			wantCF, wantTag := []byte{42, 50}[vi], [][]byte{etag1, etag2}[vi]
+			if cf, ok := resp.Opt(OptContentFormat); !ok || len(cf) != 1 || cf[0] != wantCF {
+				e.Violate("C04.R3", "options-of-another-representation:scripted-download", "the caller got representation v%d (%d bytes) with Content-Format %v; its blocks carried %d (etag switched=%v)", vi+1, len(v), cf, wantCF, switched)
+			}
+			if et, ok := resp.Opt(OptETag); !ok || !bytes.Equal(et, wantTag) {
+				e.Violate("C04.R3", "options-of-another-representation:scripted-download", "the caller got representation v%d (%d bytes) with ETag %x; its blocks carried %x", vi+1, len(v), et, wantTag)
+			}
+		}
+	}
 	switch {
 	case bytes.Equal(resp.Payload, v1), bytes.Equal(resp.Payload, v2):
 	default:
